@@ -52,6 +52,11 @@ pub struct World {
     /// how many reply-future drops are allowed (C18; 0 for C05)
     pub drops: u8,
     pub schedule: Vec<u16>,
+    /// (request index, delivered): the transport reports an I/O error for that request's send,
+    /// either without delivering anything or after the whole message reached the server (a late
+    /// flush error); the server answers a delivered request like any other
+    #[serde(default)]
+    pub send_faults: Vec<(u8, bool)>,
 }
 
 type Tagged = Result<String, String>;
@@ -83,6 +88,8 @@ pub struct Trace {
     pub steps: usize,
     pub max_outstanding: usize,
     pub log: Vec<String>,
+    /// per request: Some(delivered) if its send was made to fail
+    pub send_fault: Vec<Option<bool>>,
 }
 
 fn reply_for(kind: OpKind, id: &str, tag: &str) -> Vec<u8> {
@@ -159,6 +166,23 @@ pub fn run_world(w: &World) -> Result<Trace, String> {
     if gated {
         wire.set_send_credits(Some(0));
     }
+    let mut send_fault: Vec<Option<bool>> = vec![None; n];
+    for (i, delivered) in &w.send_faults {
+        if n > 0 {
+            send_fault[*i as usize % n] = Some(*delivered);
+        }
+    }
+    {
+        let mut st = wire.state.lock().unwrap();
+        for (i, f) in send_fault.iter().enumerate() {
+            if let Some(d) = f {
+                // send 0 is the client hello
+                st.send_faults.insert(i + 1, *d);
+            }
+        }
+    }
+    // the k-th <rpc> the server sees belongs to the k-th request whose bytes are delivered
+    let wire_req: Vec<usize> = (0..n).filter(|i| send_fault[*i] != Some(false)).collect();
     let shared = Rc::new(RefCell::new(Shared {
         futures: (0..n).map(|_| None).collect(),
         results: vec![None; n],
@@ -170,6 +194,7 @@ pub fn run_world(w: &World) -> Result<Trace, String> {
     let mut exec = Exec::default();
     let mut trace = Trace {
         dropped: vec![false; n],
+        send_fault: send_fault.clone(),
         ..Trace::default()
     };
 
@@ -249,8 +274,7 @@ pub fn run_world(w: &World) -> Result<Trace, String> {
         while seen_requests < sent.len() {
             if seen_requests > 0 {
                 let id = message_id_lenient(&sent[seen_requests]).unwrap_or_default();
-                let idx = received.len();
-                if idx < n {
+                if let Some(&idx) = wire_req.get(received.len()) {
                     tags[idx] = format!("tag-{idx}-{id}");
                     received.push((idx, id.clone()));
                     trace.ids.push(id);
@@ -377,7 +401,11 @@ pub fn run_world(w: &World) -> Result<Trace, String> {
             }
             Act::Release => {
                 if let Some(&i) = unreplied.iter().min_by_key(|i| (w.arrival.get(**i).copied().unwrap_or(0), **i)) {
-                    let id = &received[i].1;
+                    let id = &received
+                        .iter()
+                        .find(|(ri, _)| *ri == i)
+                        .expect("unreplied requests were received")
+                        .1;
                     wire.push(reply_for(w.ops[i], id, &tags[i]));
                     replied.insert(i);
                     release_order.push(i);
@@ -522,9 +550,23 @@ fn judge(w: &World, prop_id: &str, obs: &mut Obs) {
             format!("message-ids on the wire are not all fresh: {:?}", trace.ids),
         );
     }
-    let strays = !trace.stray_ids.is_empty();
+    // the reply to a request whose send was reported as failed has no owner either
+    let strays = !trace.stray_ids.is_empty() || trace.send_fault.iter().any(|f| *f == Some(true));
+    for f in trace.send_fault.iter().flatten() {
+        obs.class(if *f { "send-fault:delivered" } else { "send-fault:not-delivered" });
+    }
     for i in 0..n {
         if trace.dropped[i] {
+            continue;
+        }
+        if trace.send_fault[i].is_some() {
+            match &trace.results[i] {
+                Some(Err(e)) if e.starts_with("send:") => {}
+                other => obs.fail(
+                    "failed-send-not-reported",
+                    format!("request {i}: the transport reported an I/O error for its send but the caller got {other:?}"),
+                ),
+            }
             continue;
         }
         match &trace.results[i] {
@@ -624,10 +666,14 @@ fn world_strategy(max_n: usize, drops: bool, sched_len: usize) -> BoxedStrategy<
                 0u8..2,
                 if drops { (1u8..3).boxed() } else { Just(0u8).boxed() },
                 prop::collection::vec(any::<u16>(), 0..sched_len),
+                prop_oneof![
+                    3 => Just(Vec::new()),
+                    1 => prop::collection::vec((0..n as u8, any::<bool>()), 1..3),
+                ],
             )
         })
         .prop_map(
-            |(ops, arrival, groups, sequential, strays, gate_closes, drops, schedule)| World {
+            |(ops, arrival, groups, sequential, strays, gate_closes, drops, schedule, send_faults)| World {
                 ops,
                 arrival,
                 groups,
@@ -636,6 +682,7 @@ fn world_strategy(max_n: usize, drops: bool, sched_len: usize) -> BoxedStrategy<
                 gate_closes,
                 drops,
                 schedule,
+                send_faults,
             },
         )
         .boxed()
